@@ -141,13 +141,28 @@ fn s_flip_back() -> FakeSystem
 /*  the producer lib.txt recovers its target from the cache while a dependent (new a_in.txt) has to run its command */
 fn s_flip_back_and_edit() -> FakeSystem { let mut s = s_flip_back(); write_str_to_file(&mut s, "a_in.txt", "A2\n").unwrap(); s.time_passes(1); s }
 
+fn work_error_name(e: &crate::work::WorkError) -> String
+{
+    use crate::work::WorkError::*;
+    match e
+    {
+        FileNotFound(p) => format!("FileNotFound({})", p), TargetFileNotGenerated(p) => format!("TargetFileNotGenerated({})", p),
+        FileNotAvailableToCache(p, _) => format!("FileNotAvailableToCache({})", p), ReadWriteError(p, _) => format!("ReadWriteError({})", p),
+        TicketAlignmentError(_) => "TicketAlignmentError".to_string(), ResolutionError(_) => "ResolutionError".to_string(), GetCurrentFileInfoError(_) => "GetCurrentFileInfoError".to_string(),
+        CommandExecutedButErrored => "CommandExecutedButErrored".to_string(), CommandFailedToExecute(_) => "CommandFailedToExecute".to_string(), NoCommandExecuted => "NoCommandExecuted".to_string(),
+        Contradiction(v) => format!("Contradiction({:?})", v), Weird => "Weird".to_string(),
+    }
+}
 fn verdict(r: &Result<(), BuildError>) -> String
 {
     match r
     {
         Ok(()) => "Ok".to_string(),
-        Err(BuildError::WorkErrors(v)) => { let mut e : Vec<String> = v.iter().map(|x| format!("{}", x)).collect(); e.sort(); format!("WorkErrors{:?}", e) },
-        Err(e) => format!("Err({})", e),
+        /*  by variant, not by message text: rewording a message is not a change of outcome */
+        Err(BuildError::WorkErrors(v)) => { let mut e : Vec<String> = v.iter().map(|x| work_error_name(x)).collect(); e.sort(); format!("WorkErrors{:?}", e) },
+        Err(BuildError::Canceled) => "Err(Canceled)".to_string(),
+        Err(BuildError::Weird) => "Err(Weird)".to_string(),
+        Err(_) => "Err(other build error)".to_string(),
     }
 }
 
@@ -343,9 +358,9 @@ fn verif_sched_corpora()
     std::panic::set_hook(Box::new(|_| {}));
     let mut t = [(0usize, 0usize); 4];
     run_corpus("two rules fail alike", RULES_TWO_FAIL, setup_in, &[("open", "in.txt"), ("command", "middle.txt")], &["left.txt", "right.txt", "middle.txt"],
-               Some("WorkErrors[\"Command executed but errored\", \"Command executed but errored\"]"), &[], &mut t);
+               Some("WorkErrors[\"CommandExecutedButErrored\", \"CommandExecutedButErrored\"]"), &[], &mut t);
     run_corpus("two missing leaves around a slow one", RULES_FANIN, setup_fanin, &[("open", "m_slow.txt"), ("command", "poem.txt")], &["middle.txt", "poem.txt"],
-               Some("WorkErrors[\"File not found: a_missing.txt\", \"File not found: z_missing.txt\"]"), &["mycat middle.txt poem.txt"], &mut t);
+               Some("WorkErrors[\"FileNotFound(a_missing.txt)\", \"FileNotFound(z_missing.txt)\"]"), &["mycat middle.txt poem.txt"], &mut t);
     run_corpus("one cache entry for two rules", RULES_SHARED, setup_shared, &[("open", ".ruler/cache"), ("rename", "a.txt"), ("rename", "b.txt")], &["a.txt", "b.txt"], Some("Ok"), &[], &mut t);
     for (k, n) in ["C03", "C04", "C05", "C06"].iter().enumerate() { println!("SUMMARY B-sched-corpora-{} cases={} disagreements={}", n, t[k].0, t[k].1); }
 }
@@ -356,10 +371,10 @@ fn verif_sched_build()
     std::panic::set_hook(Box::new(|_| {}));
     let scenarios = [
         Scenario { name: "fresh build", make: s_fresh, expect: Some(("Ok", &["lib.txt", "app1.txt", "app2.txt", "top.txt"])) },
-        Scenario { name: "leaf a_in.txt missing", make: s_missing_leaf, expect: Some(("WorkErrors[\"File not found: a_in.txt\"]", &["lib.txt", "app2.txt"])) },
+        Scenario { name: "leaf a_in.txt missing", make: s_missing_leaf, expect: Some(("WorkErrors[\"FileNotFound(a_in.txt)\"]", &["lib.txt", "app2.txt"])) },
         Scenario { name: "build; edit src; build", make: s_edit_after_build, expect: Some(("Ok", &["lib.txt", "app1.txt", "app2.txt", "top.txt"])) },
         Scenario { name: "command of lib.txt fails", make: s_failing_command, expect: None },
-        Scenario { name: "build; edit src, remove a_in.txt; build", make: s_missing_leaf_after_build, expect: Some(("WorkErrors[\"File not found: a_in.txt\"]", &["lib.txt", "app2.txt"])) },
+        Scenario { name: "build; edit src, remove a_in.txt; build", make: s_missing_leaf_after_build, expect: Some(("WorkErrors[\"FileNotFound(a_in.txt)\"]", &["lib.txt", "app2.txt"])) },
         Scenario { name: "build; one rule history corrupted, edit src; build", make: s_corrupt_history, expect: None },
         Scenario { name: "build S1; build S2; back to S1; build", make: s_flip_back, expect: Some(("Ok", &["lib.txt", "app1.txt", "app2.txt", "top.txt"])) },
         Scenario { name: "build S1; build S2; back to S1 and edit a_in.txt; build", make: s_flip_back_and_edit, expect: Some(("Ok", &["lib.txt", "app1.txt", "app2.txt", "top.txt"])) },
